@@ -1063,11 +1063,14 @@ BRIDGE_GROUPS = {
     "macro": ["ustruct_minSize", "sstruct_size", "uenum_minSize", "minList_step", "ustruct_lastFieldOffset_and_size", "ustruct_viewLen", "ustruct_validate_floor",
               "uenum_viewLen", "senum_dataOffset", "validate_and_init_floors", "macro_untranslatable_none"],
     "portable": ["portable_table_ok"],
+    # decision points: condition, error kind and error position of each refusal, extracted from the source
+    "guards": ["guard_checkAlignMin", "guard_vecValidate", "guard_strValidate", "guard_vecFromArray", "guard_flexSlotAlign", "guard_flexSlot",
+               "guard_flexFillRoom", "guard_flexFillSeal", "guard_flexPushSeal", "guards_untranslatable_none"],
 }
-LAYOUT = ["arith", "iter", "vec", "str", "flex", "macro"]
+LAYOUT = ["arith", "iter", "vec", "str", "flex", "macro", "guards"]
 BRIDGE_OF = {
     "C01": LAYOUT, "C02": LAYOUT, "C03": LAYOUT, "C04": LAYOUT, "C05": LAYOUT, "C06": LAYOUT, "C07": LAYOUT, "C10": LAYOUT,
-    "C11": ["arith", "vec", "str"], "C12": ["arith", "flex"], "C13": ["arith", "vec", "str", "flex"], "C14": LAYOUT, "C15": LAYOUT,
+    "C11": ["arith", "vec", "str"], "C12": ["arith", "flex", "guards"], "C13": ["arith", "vec", "str", "flex", "guards"], "C14": LAYOUT, "C15": LAYOUT,
     "C16": ["portable"], "C17": LAYOUT, "C18": LAYOUT, "C19": ["arith", "iter", "macro", "vec", "flex"], "C20": LAYOUT, "C08": [], "C09": [],
 }
 def regenerate_formulas():
